@@ -507,6 +507,7 @@ def analyse_core(repo: Path):
     refs = {"objective_function": [], "solve": [], "_fcn": []}
     whiles = []
     helper_rng = {}
+    fw_rng = []
     for f in files:
         tree = parse(repo / "pyvolutionary" / f)
         fv = Funcs()
@@ -517,6 +518,13 @@ def analyse_core(repo: Path):
                     refs[n.attr].append(f"{f}:{qual}")
                 if isinstance(n, ast.While):
                     whiles.append({"test": U(n.test), "where": f"pyvolutionary/{f}:{qual}"})
+            for n in ast.walk(fn):
+                if isinstance(n, ast.Call):
+                    src = U(n.func)
+                    if src.startswith("random.") or src.startswith("secrets.") or src in (
+                            "np.random.default_rng", "np.random.RandomState", "np.random.Generator", "np.random.SeedSequence", "numpy.random.default_rng",
+                            "default_rng", "RandomState", "time.time", "time.time_ns", "time.perf_counter", "os.urandom", "uuid.uuid4", "uuid.uuid1"):
+                        fw_rng.append({"what": src, "where": f"pyvolutionary/{f}:{qual}"})
             if f == "helpers.py" and "." not in qual:
                 srcs = set()
                 for n in ast.walk(fn):
@@ -537,6 +545,7 @@ def analyse_core(repo: Path):
     core["objectiveCallers"] = {k: sorted(set(v)) for k, v in refs.items()}
     core["whileLoops"] = whiles
     core["helperRng"] = {k: v for k, v in helper_rng.items() if v}
+    core["frameworkRngOther"] = fw_rng
     # optimize(): order of the prologue
     ab = parse(repo / "pyvolutionary" / "abstract.py")
     opt = None
@@ -725,6 +734,7 @@ structure CoreFacts where
   seedIsInt : Bool                          -- declared type of `Task.seed` admits an int and nothing numpy rejects
   frameworkWhileLoops : Nat
   helperNonNumpyRng : Nat
+  frameworkNonGlobalRng : Nat               -- calls in the framework files that draw from anything but numpy's global generator (stdlib random, default_rng(), RandomState(), time, urandom, uuid)
   poolResultsShape : Bool                   -- `get_pool_results` = collect `as_completed(executors)` into a list, nothing else
   poolExecutorShape : Bool                  -- `get_pool_executor` = ThreadPoolExecutor / ProcessPoolExecutor with n_workers
 deriving Repr
@@ -739,8 +749,8 @@ deriving Repr
     C.append("    prologue := %s," % lean_list("." + ps.get(x, x) for x in core["prologueOrder"]))
     C.append("    initAgentShape := %s, solveShape := %s, initialSolutionShape := %s," % tuple("true" if core[k] else "false" for k in ("initAgentShape", "solveShape", "initialSolutionShape")))
     seed_ok = core["seedAnnotation"] is not None and "int" in core["seedAnnotation"] and "float" not in core["seedAnnotation"]
-    C.append("    seedIsInt := %s, frameworkWhileLoops := %d, helperNonNumpyRng := %d, poolResultsShape := %s, poolExecutorShape := %s }" % (
-        "true" if seed_ok else "false", len(core["whileLoops"]), len(core["helperRng"]), "true" if core["poolResultsShape"] else "false", "true" if core["poolExecutorShape"] else "false"))
+    C.append("    seedIsInt := %s, frameworkWhileLoops := %d, helperNonNumpyRng := %d, frameworkNonGlobalRng := %d, poolResultsShape := %s, poolExecutorShape := %s }" % (
+        "true" if seed_ok else "false", len(core["whileLoops"]), len(core["helperRng"]), len(core["frameworkRngOther"]), "true" if core["poolResultsShape"] else "false", "true" if core["poolExecutorShape"] else "false"))
     C.append("\nend Generated")
     return "\n".join(L) + "\n", "\n".join(C) + "\n"
 
